@@ -32,6 +32,7 @@ type opResult struct {
 	Seat  int    // seat returned by join
 	Err   string // "" = nil
 	Panic string
+	Val   string // what a read-only call ("get") returned
 }
 
 func errName(err error) string {
@@ -165,8 +166,10 @@ func (m *model) step(op opSpec, r opResult) (bool, string) {
 		}
 		m.res[op.Seat] = op.Kind == "reserve"
 		return true, ""
-	case "next":
+	case "next", "get":
 		// positions and active flags are not modelled; C08/C17 judge them
+		// (a read-only call changes nothing; what it returned is compared
+		// with the sequential orders of its burst)
 		return true, ""
 	case "restart":
 		if r.Err != "" {
